@@ -1,6 +1,6 @@
 (* C17 - Tracker events are a faithful, well-nested account of the build.  Property theorems only. *)
 From Coq Require Import List NArith ZArith Bool.
-From PieV Require Import Model.Dag Model.Build Model.Tracker Proofs.TrackerP Proofs.Trace Proofs.Local2.
+From PieV Require Import Model.Dag Model.Build Model.Tracker Proofs.TrackerP Proofs.Trace Proofs.Local2 Proofs.InvE Proofs.ExecEnd.
 Import ListNotations.
 Open Scope N_scope.
 
@@ -88,6 +88,45 @@ Theorem C17_require_end_value : forall OC mc w t c o w',
     update_require_dependency (emit w4 (ERequireEnd t c (oc_stamp (OC c) o) o)) t c (oc_stamp (OC c) o) = Done tt w'.
 Proof. exact require_with_done. Qed.
 Print Assumptions C17_require_end_value.
+
+(* ---- "every task execution that really ran appears ... with the output it returned" ----
+   last_exec tr t: the latest execution event of t in the (newest-first) stream: Some (Some o) = its end with output o,
+   Some None = its start (still running, or aborted), None = t was not executed in this session.
+   XI w: for every task, if the latest execution event is the END with o, the store holds exactly o for the task (the value every
+   later require returns from the cache); if it is the START, the task has no output.
+   For ALL programs, checkers and fuel, after EVERY history -- top-down requires and bottom-up builds in any mix, external
+   changes, any number of aborted builds: *)
+Theorem C17_exec_events_agree_with_outputs_any_history : forall RC OC P always fuel h,
+  XI (snd (run_history RC OC P always fuel init_world h)).
+Proof. exact exec_events_agree_with_outputs_any_history. Qed.
+Check C17_exec_events_agree_with_outputs_any_history : forall RC OC P always fuel h,
+  XI (snd (run_history RC OC P always fuel init_world h)).
+Print Assumptions C17_exec_events_agree_with_outputs_any_history.
+
+(* the step form, from ANY world satisfying it, for completed and aborted builds (okO: the world an abort leaves behind; the
+   model-only abort ABug 4 aside) -- the invariant is kept by every primitive of the session, in particular between the
+   operations of one session *)
+Theorem C17_exec_events_agree_top_down : forall RC OC P always fuel w t,
+  XI w -> okO XI (session_require RC OC P always fuel w t).
+Proof. exact session_require_XI. Qed.
+Check C17_exec_events_agree_top_down : forall RC OC P always fuel w t,
+  XI w -> okO XI (session_require RC OC P always fuel w t).
+Print Assumptions C17_exec_events_agree_top_down.
+
+Theorem C17_exec_events_agree_bottom_up : forall RC OC P fuel w ch,
+  XI w -> okO XI (session_bottom_up RC OC P fuel w ch).
+Proof. exact session_bottom_up_XI. Qed.
+Check C17_exec_events_agree_bottom_up : forall RC OC P fuel w ch,
+  XI w -> okO XI (session_bottom_up RC OC P fuel w ch).
+Print Assumptions C17_exec_events_agree_bottom_up.
+
+(* non-vacuity: a stream whose latest event for task 1 is the end with 8, for task 2 the start *)
+Example C17_last_exec_witness :
+  last_exec [EExecStart 2; EExecEnd 1 8; EReadStart 3 5; EExecStart 1] 1 = Some (Some 8%Z) /\
+  last_exec [EExecStart 2; EExecEnd 1 8; EReadStart 3 5; EExecStart 1] 2 = Some None /\
+  last_exec [EExecStart 2; EExecEnd 1 8; EReadStart 3 5; EExecStart 1] 3 = None.
+Proof. repeat split. Qed.
+Print Assumptions C17_last_exec_witness.
 
 Example C17_balanced_witness :
   balanced [EBuildStart; ERequireStart 1 2; EExecStart 1; EReadStart 3 5; EReadStart 4 0; EReadEnd 4 0 7; ESchedTask 9;
